@@ -21,6 +21,7 @@ PW = shard_int("PW", 0)
 NOISE = shard_int("NOISE", 0)
 EXPN = shard_int("EXPN", 0)  # 1: no expected name configured
 BADPW = shard_int("BADPW", 0)  # 1: the device flags the password invalid
+TAIL = shard_int("TAIL", 0)  # what follows the responses at once: 0 nothing, 1 a DisconnectRequest in the same chunk, 2 EOF in the same loop turn
 ORDER_NAMES = ["hello+connect in one chunk", "hello, loop turn, connect", "connect before hello", "hello and connect as two chunks in one turn"]
 
 
@@ -81,7 +82,7 @@ def h06(major: int, minor: int, name: str, expected: Optional[str], invalid_pass
             connect = ConnectStub(invalid_password=invalid_password)
 
             def fr(tid, stub):
-                payload = stub.SerializeToString()
+                payload = stub.SerializeToString() if not isinstance(stub, bytes) else stub
                 if enc is not None:
                     return enc(tid, payload)
                 return scen.frame_raw(tid, payload)
@@ -89,8 +90,13 @@ def h06(major: int, minor: int, name: str, expected: Optional[str], invalid_pass
             fh = fr(2, hello)
             fc = fr(4, connect)
             hello_before_end = True
+            tail = b""
+            if TAIL == 1:
+                tail = fr(5, pb.DisconnectRequest().SerializeToString())
             if ORDER == 0:
-                w.feed(fh + (fc if login else b""))
+                w.feed(fh + (fc if login else b"") + tail)
+                if TAIL == 2:
+                    w.transport.feed_eof()
             elif ORDER == 1:
                 w.feed(fh)
                 w.loop.run_ready()
@@ -118,6 +124,10 @@ def h06(major: int, minor: int, name: str, expected: Optional[str], invalid_pass
             name_ok = expected is None or name == expected or name == ""
             auth_ok = (not login) or (not invalid_password)
             good = version_ok and name_ok and auth_ok and hello_before_end
+            if TAIL and good:
+                # the device closes right behind its (acceptable) answers: whether the connect call still
+                # reports success is not specified; only the rejecting cases are judged
+                return True
             if kind == "ok":
                 if not good:
                     why = []
@@ -193,6 +203,16 @@ def shards(tier: str) -> list:
                                         "cond_timeout": 600, "path_timeout": 60,
                                         "desc": f"{'noise' if noise else 'plaintext'}, {ORDER_NAMES[order]}, login={'on' if login else 'off'}, password {'set' if pw else 'unset'}, "
                                                 f"expected name {'unset' if expn else 'set'}, password verdict {'invalid' if badpw else 'ok'}; symbolic versions and names"})
+    # the device closes right behind its answers (DisconnectRequest in the same chunk / EOF in the same turn):
+    # a rejected connect must still report the specific error
+    for noise in (0, 1):
+        for tail in (1, 2):
+            for expn in (0, 1):
+                for badpw in (0, 1):
+                    out.append({"fn": "h06", "env": {"ORDER": 0, "LOGIN": 1, "PW": 0, "NOISE": noise, "EXPN": expn, "BADPW": badpw, "TAIL": tail},
+                                "cond_timeout": 600, "path_timeout": 60,
+                                "desc": f"{'noise' if noise else 'plaintext'}, hello+connect in one chunk followed at once by {'a DisconnectRequest' if tail == 1 else 'EOF'}, "
+                                        f"expected name {'unset' if expn else 'set'}, password verdict {'invalid' if badpw else 'ok'}"})
     return out
 
 
